@@ -139,4 +139,39 @@ theorem readIndexPosition_stream : ∀ (bs : List (List Nat)) (i : Nat) (pre tai
       · simp only [Option.some.injEq, Prod.mk.injEq, and_true]; omega
       · rfl
 
+/-- **`read_next`** on the first record of a stream returns its frame and moves behind it -/
+theorem readNext_frame (pre b rest : List Nat) (hb : 0 < b.length ∧ b.length < 2 ^ 64) :
+    readNext ⟨pre ++ (frame b ++ rest), pre.length⟩ =
+      some (frame b, ⟨pre ++ (frame b ++ rest), pre.length + (frame b).length⟩) := by
+  unfold readNext
+  rw [readLen_frame pre b rest hb]
+  simp only [List.drop_left, List.take_left]
+  simp
+
+/-- **reading a file record by record with `read_next`** returns exactly the frames of the stream, in order, and stops
+at the end mark (or the end of the file), wherever the stream starts in the file and however short its last record is -/
+theorem readAll_stream : ∀ (bs : List (List Nat)) (pre tail : List Nat) (f : Nat),
+    BodiesOK bs → TailOK tail → bs.length ≤ f →
+    readAll f ⟨pre ++ stream bs tail, pre.length⟩ = bs.map frame := by
+  intro bs
+  induction bs with
+  | nil =>
+    intro pre tail f _ ht _
+    have hr := readLen_end pre tail ht
+    simp only [stream, List.map_nil, List.flatten_nil, List.nil_append]
+    cases f with
+    | zero => rfl
+    | succ f => simp [readAll, readNext, hr]
+  | cons b bs ih =>
+    intro pre tail f hb ht hf
+    obtain ⟨f, rfl⟩ : ∃ g, f = g + 1 := ⟨f - 1, by simp only [List.length_cons] at hf; omega⟩
+    have hbb := hb b (by simp)
+    rw [stream_eq, frames_cons, List.append_assoc]
+    simp only [readAll, readNext_frame pre b (frames bs ++ tail) hbb, List.map_cons]
+    have hpre : pre ++ (frame b ++ (frames bs ++ tail)) = (pre ++ frame b) ++ stream bs tail := by
+      rw [stream_eq]; simp
+    have hlen : pre.length + (frame b).length = (pre ++ frame b).length := by simp
+    rw [hpre, hlen, ih (pre ++ frame b) tail f (fun x hx => hb x (by simp [hx])) ht
+      (by simp only [List.length_cons] at hf; omega)]
+
 end RNacos.FileReader
